@@ -223,7 +223,20 @@ pub fn eval(case: &DdCase, obs: &mut CaseObs) -> Verdict {
             return Verdict::Fail(format!("configuration bits {bits:06b}: terminal node drawn = {} although the last layer is {} (best_value = {:?})", p.terminal, if out.best_value.is_some() { "non-empty" } else { "empty" }, out.best_value));
         }
         if !(t.embed_depth && !t.has_irrelevance()) {
-            continue; // labels identify nodes only when the state embeds its depth
+            // Labels identify nodes only when the state embeds its depth. What can still be decided: every drawn edge
+            // must carry the decision and the cost of SOME arc that was really created between two states with these
+            // labels (existence, no multiplicities) - with long arcs the inbound arcs of a pooled node branch on
+            // different variables, which is exactly where a drawing routine can go wrong (seeded change C20-S3).
+            for (sl, dl, ints) in p.arcs.iter() {
+                if sl.starts_with('?') {
+                    continue; // the source is hidden by the configuration
+                }
+                let ok = rec.arcs.keys().any(|k| &k.0 == sl && &k.3 == dl && is_subsequence(&[k.1 as isize, k.2, k.4], ints));
+                if !ok {
+                    return Verdict::Fail(format!("configuration bits {bits:06b}: an edge {sl} -> {dl} is drawn with label numbers {:?} but no arc created between states with these labels has that decision and cost; created arcs there: {:?}", ints, rec.arcs.keys().filter(|k| &k.0 == sl && &k.3 == dl).collect::<Vec<_>>()));
+                }
+            }
+            continue;
         }
         // (4) arcs: every drawn edge must carry the decision and the cost of an arc that was really created
         // between those two states (the three numbers must occur in its label, in that order), and every
